@@ -1,4 +1,5 @@
 //! Native oracle for C31. stdin: one JSON object per line {"text": "...", "start": n, "end": n} (byte offsets, no outer span).
+//! optional "outer": n = start of an outer span (Some(Span { start: n, end: text length })); start/end are then relative to it.
 //! stdout per line: {"out": "<rendered excerpt>", "row": n|null, "col": n|null} or {"panic": true}
 use common_lang_types::{Span, text_with_carats};
 use serde_json::Value;
@@ -14,8 +15,9 @@ fn main() {
         let j: Value = serde_json::from_str(&line).unwrap();
         let text = j["text"].as_str().unwrap().to_string();
         let (s, e) = (j["start"].as_u64().unwrap() as u32, j["end"].as_u64().unwrap() as u32);
+        let outer = j.get("outer").and_then(|o| o.as_u64()).map(|o| Span { start: o as u32, end: text.len() as u32 });
         let r = std::panic::catch_unwind(move || {
-            let (out, pos) = text_with_carats(&text, None, Span { start: s, end: e }, false);
+            let (out, pos) = text_with_carats(&text, outer, Span { start: s, end: e }, false);
             (out, pos.map(|(r, c)| (r.0.get(), c.0.get())))
         });
         match r {
